@@ -24,7 +24,7 @@ const promptBound = 1500 * time.Millisecond
 
 func runC09Case(cc c09Case) (string, string) {
 	a, b := newPipe()
-	if cc.Peer == "never-reads" {
+	if cc.Peer == "never-reads" || cc.Peer == "flood-never-reads" {
 		a.blockWrites = true
 	}
 	c := websocket.VerifNewConn(a, cc.Client, websocket.VerifCopts{}, 0)
@@ -92,7 +92,7 @@ func runC09Case(cc c09Case) (string, string) {
 	case "stall-payload":
 		send(hdrOf(1 << 20))
 		send(make([]byte, cc.K))
-	case "flood-frames":
+	case "flood-frames", "flood-never-reads":
 		go func() {
 			f := RawFrame{Fin: true, Op: 2, Masked: peerMask, Key: [4]byte{5, 6, 7, 8}, Payload: make([]byte, 512)}.Encode()
 			for {
@@ -128,7 +128,7 @@ func runC09Case(cc c09Case) (string, string) {
 	case "data-to-closeread":
 		send(RawFrame{Fin: true, Op: 1, Masked: peerMask, Key: [4]byte{1, 1, 1, 1}, Payload: []byte("unexpected")}.Encode())
 	}
-	if cc.Peer != "never-reads" {
+	if cc.Peer != "never-reads" && cc.Peer != "flood-never-reads" {
 		go io.Copy(io.Discard, b) // the peer reads (and ignores) whatever the endpoint sends
 	}
 	time.Sleep(30 * time.Millisecond)
@@ -214,7 +214,7 @@ func runC09Case(cc c09Case) (string, string) {
 
 func runC09(ctx *runCtx) {
 	rep := ctx.rep
-	rep.Rule = "scripted adversary peers {silent, stall after k bytes of a header (k=1,2,6,10,13; also with the k bytes arriving together with a preceding complete frame), stall after k payload bytes (k=0,1,100,5000), endless small data frames, one frame declaring 2^62 bytes fed forever, never reads (writes block), half-close, data message to a CloseRead connection} x local state at the time of the call {idle, reader blocked, message half read, CloseRead active, writer blocked, a Write / Ping without deadline arriving 200 ms after the call began} x {Close, CloseNow} x role; " +
+	rep.Rule = "scripted adversary peers {silent, stall after k bytes of a header (k=1,2,6,10,13; also with the k bytes arriving together with a preceding complete frame), stall after k payload bytes (k=0,1,100,5000), endless small data frames, one frame declaring 2^62 bytes fed forever, never reads (writes block), floods data frames and never reads, half-close, data message to a CloseRead connection} x local state at the time of the call {idle, reader blocked, message half read, CloseRead active, writer blocked, a Write / Ping without deadline arriving 200 ms after the call began (against a peer that never reads, a silent peer, a peer stalled inside a payload)} x {Close, CloseNow} x role; " +
 		"wall clock: Close <= 12.5 s, CloseNow <= 1.5 s, blocked calls and the CloseRead context released <= 1.5 s after. distinct = scenario tuple"
 	if ctx.replay != "" {
 		var cc c09Case
@@ -266,6 +266,16 @@ func runC09(ctx *runCtx) {
 	}
 	for _, client := range []bool{true, false} {
 		cases = append(cases, c09Case{Client: client, Peer: "data-to-closeread", Local: "closeread", Op: "none"})
+		// both directions busy at once: the deadline of the blocked direction must survive the arming and
+		// disarming of the other one. The peer floods data to an active reader and never reads (Close is stuck
+		// writing its Close frame); the peer reads but never answers and a Ping goes out while Close waits for
+		// the peer's Close frame.
+		for _, op := range []string{"close", "closenow"} {
+			cases = append(cases, c09Case{Client: client, Peer: "flood-never-reads", Local: "reader-blocked", Op: op},
+				c09Case{Client: client, Peer: "flood-never-reads", Local: "closeread", Op: op},
+				c09Case{Client: client, Peer: "silent", Local: "pinger-arrives", Op: op},
+				c09Case{Client: client, Peer: "stall-payload", K: 100, Local: "pinger-arrives", Op: op})
+		}
 	}
 	type res struct {
 		i     int
